@@ -200,6 +200,32 @@ CHECKS = {
   note="Known finding D8 (open): in geometries where source pixel centres lie exactly on reference pixel edges the mask depends "
        "on the block partition (nearest-neighbour tie + erosion reach at seams). GDAL nearest tie-breaking is not modelled.",
   tech="Lean 4 proof (omega, Bool/List.all reasoning) + differential mask comparison against the model definition", ref='7 C17'),
+ 'C18': dict(
+  text="Proof (Lean 4) of the decision logic: auto resolves to the coarser image (ties to the reference), explicit choices are "
+       "kept; combine_profiles takes size/CRS/transform from the input image and format keys from the configuration, also across "
+       "a driver change; flips are involutive; every model/block configuration key reaches the metadata call (generated tables); "
+       "and the band round trip: with the matched reference bands' wavelengths copied to the corrected bands and pairwise distinct "
+       "reference wavelengths, matching the corrected image against the same reference selects exactly the bands the fusion used "
+       "(roundtrip_bands, a corollary of C15's match_nearest) (9 theorems). Tied to the code by real fusions: corrected grid = "
+       "north-up source grid, band count/order/descriptions/wavelength tags of the matched reference bands, parameter image on the "
+       "processing grid (model procres), FUSE_* tags complete and equal to the effective settings, south-up storage of source/"
+       "reference/both bit-identical (dyadic geometry), RasterCompare(corrected, reference) re-selects the fusion's bands; "
+       "combine_profiles vs the model on generated profiles.",
+  note="Partial: WarpedVRT (north-up re-projection, CRS changes), rotated and cross-CRS inputs are exercised, not modelled; "
+       "south-up storage is only generated on dyadic geometry (a flipped decimal grid is an ulp off the north-up one).",
+  tech="Lean 4 proof of the decision logic (+ corollary of the matcher theorem) + differential runs", ref='7 C18'),
+ 'C19': dict(
+  text="Proof (Lean 4) of the front-end logic: per-key precedence command line > file > default (merge_precedence), file keys "
+       "count as given, unknown configuration keys are rejected, known keys merge key by key; every key of the block/model/output "
+       "dictionaries is a fuse keyword option and vice versa, likewise for compare (decide over tables regenerated from the live "
+       "code by the translator gen_tables.py on every run); _update_existing_keys, output naming (kernel height then width), "
+       "parameter file name, nodata callback, default creation options (13 theorems). Tied to the code by CliRunner runs of "
+       "`homonim fuse` where every option is independently default / flag / file / both (falsy flag values included), compared "
+       "with the API call using the model's merged settings: corrected and parameter images pixel-, mask-, description- and "
+       "tag-identical; file names vs the model; unknown keys rejected; compare/stats JSON vs API in C11/C12.",
+  note="Partial: click's own parsing and type conversion are trusted; values that come from the YAML file bypass click's "
+       "callbacks (e.g. a kernel shape arrives as a list), which the harness mirrors.",
+  tech="Lean 4 proof + translator-generated tables (decide) + CLI-vs-API differential runs", ref='7 C19'),
  'C20': dict(
   text="Proof (Lean 4): for every integer window with non-negative size the boundless read succeeds (read_total) and returns "
        "the image pixel at its own location where the window overlaps the image and nodata elsewhere (read_spec), with the "
